@@ -340,10 +340,10 @@ class Typer(object):
         return ty
 
     def _expr(self, head, b):
-        if head == 'IntegerNode':
-            return 'literal', 'integer'
-        if head == 'RealNode':
-            return 'literal', 'real'
+        if head in ('IntegerNode', 'RealNode'):
+            # the literal's type is read off its SPELLING in the text (digits only: integer; a point or an exponent:
+            # real), not off the node class the parser chose
+            return 'literal', ('real' if any(ch in '.eE' for ch in b[1]) else 'integer')
         if head == 'StringNode':
             return 'literal', 'string'
         if head == 'BooleanNode':
